@@ -270,10 +270,26 @@ Proof. unfold freeP; tauto. Qed.
 Lemma freeP_S d v : freeP d v -> ~ In (subele_term d) v.
 Proof. unfold freeP; tauto. Qed.
 
+Definition freeTE (d : delims) (v : str) : Prop :=
+  ~ In (seg_term d) v /\ ~ In (ele_term d) v.
+
+Lemma free_of_TE_iff d v : free_of_TE d v = true <-> freeTE d v.
+Proof.
+  unfold free_of_TE, freeTE. rewrite !andb_true_iff, !negb_mem_iff. tauto.
+Qed.
+
+Lemma freeP_TE d v : freeP d v -> freeTE d v.
+Proof. unfold freeP, freeTE; tauto. Qed.
+
+(* every value avoids the terminator and the element separator; the ISA has
+   singleton elements (never split at the component separator), every other
+   segment has non-empty composites whose values avoid the component separator *)
 Definition cleanP (d : delims) (s : seg) : Prop :=
   exists id, sid s = Some id /\ id <> [] /\ freeP d id /\
-    (forall c, In c (els s) -> c <> [] /\ forall v, In v c -> freeP d v) /\
-    (id = cs "ISA" -> forall c, In c (els s) -> exists v, c = [v]).
+    (forall c, In c (els s) -> forall v, In v c -> freeTE d v) /\
+    (id = cs "ISA" -> forall c, In c (els s) -> exists v, c = [v]) /\
+    (id <> cs "ISA" -> forall c, In c (els s) ->
+       c <> [] /\ forall v, In v c -> ~ In (subele_term d) v).
 
 Lemma len1 {A} (c : list A) : (length c =? 1) = true <-> exists v, c = [v].
 Proof.
@@ -287,27 +303,40 @@ Proof.
   unfold clean_seg, cleanP. destruct (sid s) as [id|].
   2:{ split; [discriminate|]. intros (id & H & _). discriminate. }
   split.
-  - intros H. rewrite !andb_true_iff in H. destruct H as [[[H1 H2] H3] H4].
+  - intros H. rewrite !andb_true_iff in H. destruct H as [[H1 H2] H3].
     exists id. split; [reflexivity|].
     split; [destruct id; [discriminate|discriminate]|].
     split; [now apply free_of_iff|].
-    rewrite forallb_forall in H3.
-    split.
-    + intros c Hc. specialize (H3 c Hc). apply andb_true_iff in H3 as [H3 H5].
-      split; [destruct c; [discriminate|discriminate]|].
-      intros v Hv. rewrite forallb_forall in H5. apply free_of_iff. auto.
-    + intros -> c Hc. rewrite str_eqb_refl in H4. rewrite forallb_forall in H4.
-      apply len1. auto.
-  - intros (id' & Hid & Hne & Hf & Hc & Hisa). injection Hid as <-.
+    destruct (str_eqb id (cs "ISA")) eqn:E; rewrite forallb_forall in H3.
+    + apply str_eqb_eq in E. split; [|split].
+      * intros c Hc v Hv. specialize (H3 c Hc). apply andb_true_iff in H3 as [_ H5].
+        rewrite forallb_forall in H5. apply free_of_TE_iff. auto.
+      * intros _ c Hc. apply len1. specialize (H3 c Hc).
+        apply andb_true_iff in H3 as [H3 _]. exact H3.
+      * intros N. congruence.
+    + assert (N : id <> cs "ISA").
+      { intros ->. rewrite str_eqb_refl in E. discriminate. }
+      split; [|split].
+      * intros c Hc v Hv. specialize (H3 c Hc). apply andb_true_iff in H3 as [_ H5].
+        rewrite forallb_forall in H5. apply freeP_TE, free_of_iff. auto.
+      * intros E'. congruence.
+      * intros _ c Hc. specialize (H3 c Hc). apply andb_true_iff in H3 as [H3 H5].
+        split; [destruct c; [discriminate|discriminate]|].
+        intros v Hv. rewrite forallb_forall in H5. apply freeP_S, free_of_iff. auto.
+  - intros (id' & Hid & Hne & Hf & Hte & Hisa & Hnon). injection Hid as <-.
     rewrite !andb_true_iff. repeat split.
     + destruct id; [congruence|reflexivity].
     + now apply free_of_iff.
-    + apply forallb_forall. intros c Hin. destruct (Hc c Hin) as [Hn Hv].
-      apply andb_true_iff. split.
-      * destruct c; [congruence|reflexivity].
-      * apply forallb_forall. intros v Hv'. apply free_of_iff. auto.
-    + destruct (str_eqb id (cs "ISA")) eqn:E; [|reflexivity].
-      apply str_eqb_eq in E. apply forallb_forall. intros c Hin. apply len1. eauto.
+    + destruct (str_eqb id (cs "ISA")) eqn:E; apply forallb_forall; intros c Hin;
+        apply andb_true_iff.
+      * apply str_eqb_eq in E. split; [apply len1; eauto|].
+        apply forallb_forall. intros v Hv. apply free_of_TE_iff. eauto.
+      * assert (N : id <> cs "ISA").
+        { intros ->. rewrite str_eqb_refl in E. discriminate. }
+        destruct (Hnon N c Hin) as [Hn Hs]. split.
+        -- destruct c; [congruence|reflexivity].
+        -- apply forallb_forall. intros v Hv. apply free_of_iff.
+           destruct (Hte c Hin v Hv) as [HT HE]. unfold freeP. auto.
 Qed.
 
 Lemma distinct_iff d : distinct_delims d = true <->
@@ -348,7 +377,7 @@ Qed.
 Lemma seg_body_free d s :
   distinct_delims d = true -> cleanP d s -> ~ In (seg_term d) (seg_body d s).
 Proof.
-  intros Hd (id & Hid & Hne & Hf & Hc & Hisa). apply distinct_iff in Hd as (D1 & D2 & D3).
+  intros Hd (id & Hid & Hne & Hf & Hte & Hisa & Hnon). apply distinct_iff in Hd as (D1 & D2 & D3).
   unfold seg_body. rewrite Hid. cbn [show_sid]. intros H.
   apply in_app_or in H as [H|[H|H]].
   - exact (freeP_T _ _ Hf H).
@@ -356,7 +385,7 @@ Proof.
   - apply join_In in H as [H|(x & Hx & Hz)]; [auto|].
     apply in_map_iff in Hx as (c & <- & Hin). apply keep_In in Hin.
     revert Hz. apply format_comp_free; auto.
-    intros v Hv. apply freeP_T. apply (Hc c Hin). exact Hv.
+    intros v Hv. apply (Hte c Hin v Hv).
 Qed.
 
 (* ------------------------------------------------------------------ *)
@@ -395,7 +424,7 @@ Lemma parse_format d s :
   distinct_delims d = true -> cleanP d s ->
   parse_seg d (format_seg d s) = {| sid := sid s; els := rt_els (els s) |}.
 Proof.
-  intros Hd (id & Hid & Hne & Hf & Hc & Hisa).
+  intros Hd (id & Hid & Hne & Hf & Hte & Hisa & Hnon).
   apply distinct_iff in Hd as (D1 & D2 & D3).
   rewrite format_seg_body, parse_seg_term.
   unfold parse_body, seg_body. rewrite Hid. cbn [show_sid].
@@ -409,19 +438,21 @@ Proof.
     + assert (Hr : rt_els (els s) = map trim_comp (keep comp_empty (els s))).
       { unfold rt_els. destruct (els s); [exfalso; apply Hk; reflexivity|reflexivity]. }
       rewrite Hr, map_map. apply map_ext_in. intros c Hin. apply keep_In in Hin.
-      destruct (Hc c Hin) as [Hcn Hcv].
       destruct (str_eqb id (cs "ISA")) eqn:E.
       * apply str_eqb_eq in E. destruct (Hisa E c Hin) as (v & ->).
         change (format_comp (subele_term d) [v]) with v.
         change (trim_comp [v]) with [v].
-        apply split_free. apply freeP_E. apply (Hcv v). now left.
-      * change (format_comp (subele_term d) c) with (join (subele_term d) (keep ele_empty c)).
+        apply split_free. apply (Hte [v] Hin v). now left.
+      * assert (N : id <> cs "ISA").
+        { intros ->. rewrite str_eqb_refl in E. discriminate. }
+        destruct (Hnon N c Hin) as [Hcn Hcv].
+        change (format_comp (subele_term d) c) with (join (subele_term d) (keep ele_empty c)).
         change (trim_comp c) with (keep ele_empty c).
         apply split_join; [now apply keep_nonnil|].
-        intros v Hv. apply keep_In in Hv. apply freeP_S. apply (Hcv v Hv).
+        intros v Hv. apply keep_In in Hv. apply (Hcv v Hv).
     + intros H. apply map_eq_nil in H. auto.
     + intros x Hx. apply in_map_iff in Hx as (c & <- & Hin). apply keep_In in Hin.
-      apply format_comp_free; auto. intros v Hv. apply freeP_E. apply (Hc c Hin). exact Hv.
+      apply format_comp_free; auto. intros v Hv. apply (Hte c Hin v Hv).
 Qed.
 
 Lemma comp_empty_trim c : comp_empty (trim_comp c) = comp_empty c.
@@ -479,19 +510,25 @@ Qed.
 Lemma freeP_nil d : freeP d [].
 Proof. unfold freeP. cbn. tauto. Qed.
 
+Lemma freeTE_nil d : freeTE d [].
+Proof. unfold freeTE. cbn. tauto. Qed.
+
 Lemma rt_clean d s : cleanP d s -> cleanP d {| sid := sid s; els := rt_els (els s) |}.
 Proof.
-  intros (id & Hid & Hne & Hf & Hc & Hisa).
+  intros (id & Hid & Hne & Hf & Hte & Hisa & Hnon).
   exists id. cbn [sid els].
-  split; [exact Hid|]. split; [exact Hne|]. split; [exact Hf|]. split.
+  split; [exact Hid|]. split; [exact Hne|]. split; [exact Hf|]. split; [|split].
   - intros c' Hin. apply rt_els_In in Hin as [->|(c & Hin & ->)].
-    + split; [discriminate|]. intros v [<-|[]]. apply freeP_nil.
-    + destruct (Hc c Hin) as [Hn Hv]. split.
-      * now apply keep_nonnil.
-      * intros v Hv'. apply keep_In in Hv'. auto.
+    + intros v [<-|[]]. apply freeTE_nil.
+    + intros v Hv'. apply keep_In in Hv'. exact (Hte c Hin v Hv').
   - intros E c' Hin. apply rt_els_In in Hin as [->|(c & Hin & ->)].
     + now exists [].
     + destruct (Hisa E c Hin) as (v & ->). now exists v.
+  - intros N c' Hin. apply rt_els_In in Hin as [->|(c & Hin & ->)].
+    + split; [discriminate|]. intros v [<-|[]]. intros [].
+    + destruct (Hnon N c Hin) as [Hn Hv]. split.
+      * now apply keep_nonnil.
+      * intros v Hv'. apply keep_In in Hv'. auto.
 Qed.
 
 (* GOAL F2: after one round trip the segment is a fixed point *)
@@ -601,6 +638,14 @@ Proof.
     + rewrite Hb. discriminate.
     + rewrite Hb. unfold strip_blank. now rewrite H2.
 Qed.
+
+(* non-vacuity: a real ISA segment (whose last element IS the component
+   separator) is clean and round-trips exactly *)
+Example isa_is_clean :
+  let d := {| seg_term := "~"%char; ele_term := "*"%char; subele_term := ":"%char |} in
+  let s := parse_seg d (list_ascii_of_string "ISA*00*          *00*          *ZZ*ZZ000          *ZZ*ZZ001          *030828*1128*U*00401*000010121*0*T*:~") in
+  distinct_delims d = true /\ clean_seg d s = true /\ parse_seg d (format_seg d s) = s.
+Proof. vm_compute. repeat split; reflexivity. Qed.
 
 Print Assumptions parse_format_canon.
 Print Assumptions parse_format_fix.
